@@ -51,7 +51,7 @@ PARTIAL = [
     "int narrowing of the cell areas in fromIspdCircuit / updateCellDemand, totalDemand() and binUsage(x, y) for at most 2^20 "
     "cells with demands in [0, 2^31) (grid_usage_no_fault), and refineX / refineY / coarsenX / coarsenY - assertion, level "
     "arithmetic, every index of the loop and of updateCellToBin() - in every state satisfying C16's invariant Grid.Inv "
-    "(grid_refine_no_fault; C16 alloc_inv proves Inv for every state reachable from the constructor); the transportation of "
+    "(grid_refine_no_fault, grid_session_no_fault, grid_usage_sum_no_fault, grid_group_capacity_no_fault, grid_total_capacity_of_constructed_grid; C16 alloc_inv proves Inv for every state reachable from the constructor); the transportation of "
     "DensityLegalizer::reoptimize as "
     "a whole - costsFromIntegers' fixed-point scaling (binary64 model, every result in [0, 2^29] so the double->int "
     "conversion is defined), increaseCapacity, the complete successive-shortest-path run (int cost differences and label "
@@ -71,15 +71,18 @@ PARTIAL = [
     "density grid, what is NOT proved: (a) the float parts are left out - DensityGrid::fromIspdCircuit's "
     "`sideMargin * minCellHeight` / `sizeFactor * minCellHeight` (float products converted to int; C16 models their values, "
     "the conversions are sanitizer-monitored), the `0.5f *` half of updateBinCenters, binX/binY, groupCenterX/Y, "
-    "simpleCoord/spreadCoord; (b) grid_total_capacity_no_fault takes `total <= 2^63-1` as a hypothesis: that the grid of "
-    "grid_capacity_no_fault satisfies it (total = sum of the region areas <= 2^16 * 2^46, C16 grid_tiles_and_conserves) is "
-    "argued in the docstring, not assembled into one Lean statement; (c) DensityGrid::binCapacity(BinGroup) has a checked "
-    "twin (groupCapacityC, executed by stream B/Z for every bin of every view) but no no-fault theorem; (d) the refine/coarsen "
+    "simpleCoord/spreadCoord; (b) closed: grid_total_capacity_of_constructed_grid proves, on the domain of grid_capacity_no_fault, that the "
+    "constructed grid has non-negative capacities and a total <= 2^62 and that totalCapacity() runs on it without fault, no "
+    "extra hypothesis; (c) closed: grid_group_capacity_no_fault (binCapacity(BinGroup) for every group inside a grid of "
+    "consistent shape, non-negative capacities, total <= 2^63-1 - in particular the constructed grid); (d) the refine/coarsen "
     "twins check assertion, level arithmetic and every index of the loops and return the unbounded model's state (the "
     "vectors the loops fill are the model's by construction); check()'s allocation assertions are exactly C16's AllocInv "
-    "(proved there) and are not restated, its two long long accumulations (usage, capacity) have a twin for the usage "
-    "(usageSumC) without theorem; (e) binUsage's bound assumes at most 2^20 cells in the bin (a hypothesis; it follows from "
-    "AllocInv's nodup + range but that step is not proved); (f) negative demands are outside the domain: the constructor's "
+    "(proved there) and are not restated; its usage accumulation and `usage == totalDemand()` assertion are proved "
+    "(grid_usage_sum_no_fault, under Grid.Inv + DemandOk; the bound of 2^20 cells per bin is derived from AllocInv there), "
+    "its capacity accumulation (`capacity == totalCapacity()`) has no twin of its own (it sums the groupCapacityC values "
+    "of (c); the equality is C16's level_total); grid_session_no_fault chains the four calls over any HState.run session "
+    "made within the calls' contracts (the redistribution skeleton steps carry no modelled arithmetic); (e) "
+    "grid_usage_no_fault (single bin, no invariant assumed) still takes the 2^20 bound as a hypothesis; (f) negative demands are outside the domain: the constructor's "
     "check() trips `placeX[c] != -1 || cellDemand_[c] == 0` on them in the assertion-enabled build (observed while building "
     "stream Z; not generated); (g) a narrowing that loses the value (area >= 2^31) is a model fault "
     "(grid_demand_narrowing_beyond_domain) but not a sanitizer event, so stream Z cannot contain it; stream B compares the "
